@@ -380,6 +380,8 @@ pub enum Act {
     Interrupt,
     /// multiply the state by the factor and return ModifiedSolution
     Modify(f64),
+    /// return ControlFlag::XOut(x + d): announce the next output abscissa ("dense output on demand")
+    XOut(f64),
 }
 
 pub struct RecSolOut<'a> {
@@ -437,6 +439,7 @@ impl<'a> SolOut for RecSolOut<'a> {
                         }
                         return ControlFlag::ModifiedSolution;
                     }
+                    Act::XOut(d) => return ControlFlag::XOut(*x + *d),
                 }
             }
         }
